@@ -10,8 +10,9 @@ so that deviation bounding (where used) counts answers that differ from a
 conformant agent.
 
 Oracle on the agent's request log:
- (1) the number of requests is at most (#distinct OIDs revealed + #roots + 1);
-     hitting the request horizon is a violation;
+ (1) the number of requests is at most (#distinct OIDs revealed + #roots + 1
+     + #answers that carried fewer bindings than columns asked for); hitting
+     the request horizon (3|W|+6) is a violation;
  (2) no OID is requested twice at a position that was answered;
  (3) if a binding the client reads does not advance beyond the OID requested
      at its position (GETNEXT: any binding; GETBULK: first repetition of a
@@ -46,16 +47,23 @@ OPS = {
     "bulkwalk4": (("bulkwalk", [A], 4), [A], "bulk"),
     "bulkwalk1x2": (("bulkwalk", [A, B], 1), [A, B], "bulk"),
     "bulktable2": (("bulktable", (1, 3), 2), [(1, 3)], "bulk"),
+    # the agent may also answer a GETBULK with fewer bindings than asked for,
+    # down to none at all (choice per request: full / none / one binding)
+    "bulkwalk1-cut": (("bulkwalk", [A], 1), [A], "bulk"),
+    "bulkwalk2-cut": (("bulkwalk", [A], 2), [A], "bulk"),
+    "bulkwalk2x2-cut": (("bulkwalk", [A, B], 2), [A, B], "bulk"),
 }
 
 # (operation, universe name, deviation bound or None)
 ALL_OPS = ["walk", "walk-warn", "table", "multiwalk", "multiwalk-warn", "bulkwalk1", "bulkwalk2", "bulkwalk3", "bulkwalk1x2", "bulkwalk2x2", "bulktable2"]
+CUT_OPS = ["bulkwalk1-cut", "bulkwalk2-cut", "bulkwalk2x2-cut"]
 PLAN = {
-    "quick": [(o, "W7", None) for o in ALL_OPS if o not in ("bulkwalk2x2",)] + [("bulkwalk2x2", "W5", None), ("bulkwalk2x2", "W7", 3)],
+    "quick": [(o, "W7", None) for o in ALL_OPS if o not in ("bulkwalk2x2",)] + [("bulkwalk2x2", "W5", None), ("bulkwalk2x2", "W7", 3)] + [(o, "W5", 3) for o in CUT_OPS],
     "thorough": [(o, "W7", None) for o in ALL_OPS]
     + [(o, "W9", None) for o in ("walk", "walk-warn", "multiwalk", "multiwalk-warn", "bulkwalk1", "bulkwalk2", "bulkwalk1x2", "table")]
     + [(o, "W9", 4) for o in ("bulkwalk3", "bulkwalk2x2", "bulktable2", "bulkwalk4")]
-    + [("bulkwalk4", "W7", None)],
+    + [("bulkwalk4", "W7", None)]
+    + [(o, "W7", 4) for o in CUT_OPS] + [("bulkwalk1-cut", "W5", None), ("bulkwalk2-cut", "W5", None)],
 }
 W9 = sorted(W7 + [(1, 3, 2, 4), (1, 3, 3, 2)])
 UNIVERSES = {"W5": W5, "W7": W7, "W9": W9}
@@ -99,6 +107,22 @@ def make_run(opname, uname, client):
 
         ag = ragent.Agent({})
         ag.successor_fn = fn
+        if opname.endswith("-cut"):
+
+            cut_memo = {}
+
+            def cut(agent, head, rows, info):
+                # like the successor function: decided lazily per distinct
+                # request (requested OIDs, max-repetitions) and then repeated
+                full = head + [vb for row in rows for vb in row]
+                req = agent.log[-1]["msg"]["pdu"]
+                key = (tuple(o for o, _ in req["varbinds"]), req["f2"])
+                if key not in cut_memo:
+                    cut_memo[key] = ctx.choose(3 if len(full) > 1 else 2, "cut%r" % (key,))
+                k = cut_memo[key]
+                return full if k == 0 else ([] if k == 1 else full[:1])
+
+            ag.bulk_cut = cut
         sender = client.sender
         sender.handle = ag.handle
         sender.calls = []
@@ -127,7 +151,11 @@ def make_run(opname, uname, client):
 
         if isinstance(exc, world.Horizon):
             bad("request-horizon-reached", horizon=horizon)
-        if nreq > len(revealed) + len(roots) + 1:
+        # an answer with fewer bindings than columns asked for (down to none)
+        # reveals nothing for some column; the client may ask once more for it
+        short = sum(1 for e in reqs if len(e.get("response", {}).get("varbinds", ())) < len(e["msg"]["pdu"]["varbinds"]))
+        facts["short_answers"] = short
+        if nreq > len(revealed) + len(roots) + 1 + short:
             bad("more-requests-than-revealed-instances", revealed=len(revealed))
         # (2) re-requests
         seen = set()
